@@ -31,4 +31,14 @@ func init() {
 	specs["C15"] = &PropSpec{Level: "exploration", QuickRuns: 64, ThorRuns: 800, Wall: 240 * time.Second, MaxProcs: 2,
 		Rule:   "episode = 1-10 branch commit/rollback requests sent at once on one session, mixing branch types AT/TCC/XA and types without a manager, generated xids / branch ids (full 64-bit range) / resource ids, scripted manager outcome (any status, error, panic); managers finish in tape-chosen order (sim point inside the manager), write returns are scheduling points; distinct = (type, commit, outcome, status) signatures; non-trivial = more than one request in flight",
 		Assume: append([]string{"resource managers are scripted stubs registered through the public RegisterResourceManager; the real managers are exercised by other properties' engines"}, commonAssume...)}
+	atAssume := append([]string{"MySQL and go-sql-driver/mysql are a model (simdb); where MySQL's behaviour is uncertain the model takes the choice most favourable to the client", "DSN envelope: interpolateParams=true, parseTime=true, multiStatements=true; one table per statement; every table has a primary key; textual primary keys without the lock-key separators"}, commonAssume...)
+	specs["C01"] = &PropSpec{Level: "exploration", QuickRuns: 160, ThorRuns: 3000, Wall: 240 * time.Second, MaxProcs: 2,
+		Rule:   "run = generated schema (1-2 tables, key kinds int/auto-increment/varchar/composite, 2-5 further columns over the enabled type families, 0-6 rows) + 3-8 global transactions of 1-3 branches (autocommit statements and explicit local transactions of 1-4 DML statements: insert single/multi-row, update, delete, upsert; literal and bound parameters) that the business then fails, rolled back by the coordinator model in reverse branch order; configuration swarm over serializer, data validation, only-care-update-columns, async-worker settings; distinct = (statement kind, explicit, serializer, compress, validation, column mode, argument count) signatures",
+		Assume: atAssume}
+	specs["C08"] = &PropSpec{Level: "exploration", QuickRuns: 160, ThorRuns: 3000, Wall: 240 * time.Second, MaxProcs: 2,
+		Rule:   "invariant at the undo_log seam of the AT simulation: every branch undo log handed to FlushUndoLog (verif-tagged observer) is compared with what the client's own parser/compressor API decodes from the (context, rollback_info) pair that reached the database model; values come from the C01 generator over all column families, configurations from the swarm; distinct = C01 signatures",
+		Assume: atAssume}
+	specs["C18"] = &PropSpec{Level: "exploration", QuickRuns: 160, ThorRuns: 3000, Wall: 240 * time.Second, MaxProcs: 2,
+		Rule:   "invariant inside the AT simulation: for each intercepted statement the row diff the database model recorded around the business statement is compared with the before/after images captured at flush time (row set by primary key, values on the recorded columns); WHERE/ORDER/LIMIT/parameter-placement shapes from the generator; distinct = C01 signatures",
+		Assume: atAssume}
 }
